@@ -37,6 +37,10 @@ def run(repo: Repo, chk: Check):
                       "constructs) is popped on every path to the handler's return", floor=1)
     from .shared import rule_stack_balance
     chk.guarded(rule_stack_balance, repo, chk, "R05.g")
+    chk.rule("R05.h", "the ra logic restores ra behind the function's OWN end label: of the labels ending in '<name>end:' it keeps the last one, because an inlined "
+                      "callee whose name ends in the caller's name leaves its end label inside the caller (shared with R06.f)", floor=1)
+    from .c06 import r06k
+    chk.guarded(r06k, repo, chk, "R05.h")
 
 
 # ---------------------------------------------------------------------- alphabet
@@ -470,6 +474,27 @@ def r05f(repo, chk):
             brk = [b for lp in ast.walk(fn) if isinstance(lp, ast.For) for b in ast.walk(lp) if isinstance(b, (ast.Break,)) and any(x is s.call for x in ast.walk(lp))]
             chk.judge("R05.f", "generate_code:remove_labels:every label is substituted in every line", ok and not brk,
                       f"the substitution runs inside loops over {loops}{' with a break' if brk else ''}: expected all lines x all labels", {"loops": loops}, where)
+            # the text that is searched and rewritten is the whole line, not a piece of it
+            for rc in [s] + searches:
+                subj = rc.args[-1] if len(rc.args) >= 2 else None
+                if not isinstance(subj, ast.Name):
+                    continue
+                ids_ = live_ids(cfg, rc.call)
+                ds_ = rd.at(ids_[0], subj.id) if ids_ else []
+                partial = []
+                for d_ in ds_:
+                    v_ = d_.value
+                    if d_.kind == "assign" and v_ is not None:
+                        src_names = {x.id for x in ast.walk(v_) if isinstance(x, ast.Name)}
+                        cuts = [x for x in ast.walk(v_) if isinstance(x, ast.Call) and isinstance(x.func, ast.Attribute) and x.func.attr in ("partition", "rpartition", "split", "rsplit")
+                                or isinstance(x, ast.Subscript) and isinstance(x.slice, ast.Slice)]
+                        whole = isinstance(v_, ast.Call) and (norm(v_.func) == "re.sub" or isinstance(v_.func, ast.Attribute) and v_.func.attr in ("sub", "replace"))
+                        if cuts and not whole and d_.index is not None or cuts and not whole and src_names - {subj.id}:
+                            partial.append(norm(v_)[:60])
+                if partial:
+                    chk.bad("R05.f", "generate_code:remove_labels:every label is substituted in every line",
+                            f"the label is searched / replaced in {subj.id}, which is only a part of the line ({partial[0]}): a label operand in the rest of the line "
+                            f"(behind a HASH(\"...\") constant of a branch) keeps its name although the label line is removed", {"subject": partial[0]}, where)
             # no line is exempted from the substitution: the only tests around it are the search for the label itself
             from .c15 import symbolic_path
             line_vars = set()
